@@ -28,7 +28,13 @@ type ev struct {
 	Result string `json:"result"` // ok | full | End | closed-pipe | close-err | ctx | item | other:<...>
 }
 
-var errClose = errors.New("verif: sender close error")
+// The error given to sender.Close: a sentinel, or one that wraps context.Canceled (a value that is
+// easily mistaken for "somebody's context ended").
+var errCloseSentinel = errors.New("verif: sender close error")
+var errCloseWrapsCanceled = fmt.Errorf("verif: producer aborted: %w", context.Canceled)
+
+// errClose is the close error of the current case (cases run one at a time).
+var errClose = errCloseSentinel
 
 func main() {
 	vkit.Main("C10", "exploration", func(r *vkit.Report) {
@@ -62,10 +68,10 @@ func classifySendErr(err error) string {
 	switch {
 	case err == nil:
 		return "ok"
+	case err == errClose:
+		return "close-err"
 	case errors.Is(err, stream.ErrClosedPipe):
 		return "closed-pipe"
-	case errors.Is(err, errClose):
-		return "close-err"
 	case errors.Is(err, context.Canceled), errors.Is(err, context.DeadlineExceeded):
 		return "ctx"
 	}
@@ -105,6 +111,10 @@ func runCase(c *vkit.Case) {
 	buffer := []int{0, 1, 2, 8}[rnd.Intn(4)]
 	nSenders := []int{1, 2, 4, 8}[rnd.Intn(4)]
 	closeWithErr := rnd.Bool(0.4)
+	errClose = errCloseSentinel
+	if rnd.Bool(0.4) {
+		errClose = errCloseWrapsCanceled
+	}
 	closerMode := rnd.Intn(2) // 0 after senders joined, 1 concurrently with them
 	recvEarly := -1           // receiver closes after this many items (-1: reads to the end)
 	if rnd.Bool(0.35) {
@@ -237,7 +247,7 @@ func runCase(c *vkit.Case) {
 				items++
 			case err == stream.End:
 				e.Result = "End"
-			case errors.Is(err, errClose):
+			case err == errClose:
 				e.Result = "close-err"
 			case errors.Is(err, context.Canceled), errors.Is(err, context.DeadlineExceeded):
 				e.Result = "ctx"
